@@ -75,10 +75,10 @@ def main():
             # history items rebuild a database on every execution: a tenth of the execution cap is plenty for
             # their few order choices (their purpose is the warm / cold comparison of the plain pass); the
             # two-lexicon inferred-synset item costs 0.1 s per execution and has hundreds of choice points - at
-            # bound 2 it alone ran for two hours, so it gets the same reduced cap (reported under items_capped)
+            # bound 2 it alone ran for two hours, so it gets the same reduced cap (never below the quick tier's 3000; reported under items_capped)
             t_item = time.time()
             heavy = name.startswith(('hist:', 'inf:two-queried-lexicons'))
-            st = e4.explore(safe, bound, max_exec // 10 if heavy else max_exec)
+            st = e4.explore(safe, bound, max(min(max_exec, 3000), max_exec // 10) if heavy else max_exec)
             st['wall'] = round(time.time() - t_item, 1)
             first = safe()        # default order again, scheduler inactive
             outs = st.pop('outcomes')
